@@ -14,7 +14,7 @@ Decided here, from the MIR of every float-writer back-end that the configuration
 Not decided: digit counts, rounding values, padding and trimming as functions of (value, options)."""
 from rules.core import rvalue_expr
 from rules import extra as X
-from rules.core import (guarded, callee_name, last_seg, op_expr, show, strip_casts, expr_calls, enum_paths,
+from rules.core import (guarded, guarded_soft, callee_name, last_seg, op_expr, show, strip_casts, expr_calls, enum_paths,
                         AnchorMissing, copy_root)
 
 INFO = {
@@ -751,5 +751,5 @@ def run(col, configs, tier):
         guarded(col, rule_padding_not_disabled_by_trim, facts)
         guarded(col, rule_cut_exposes_no_zeros, facts)
         guarded(col, rule_radix_positional_counts, facts)
-        guarded(col, X.rule_incremented_digit_in_range, facts)
-        guarded(col, X.rule_zero_exponent_normalised, facts)
+        guarded_soft(col, X.rule_incremented_digit_in_range, facts)
+        guarded_soft(col, X.rule_zero_exponent_normalised, facts)
